@@ -260,3 +260,192 @@ pub fn edit_symbols() -> Vec<Vec<u8>> {
 pub fn short_line_alphabet(p: P) -> Vec<Vec<u8>> {
 	line_alphabet(p).into_iter().filter(|l| l.len() < 1024).collect()
 }
+
+// ---------------------------------------------------------------------------------------------
+// long texts with one multi-byte character at every byte offset (fault set (h))
+
+/// longest run of ASCII padding (error messages and reports tend to be cut at 40/60/80/100/120 bytes)
+pub const PAD_MAX: usize = 140;
+
+/// The padded texts: `k` ASCII letters and one character of 1, 2, 3 or 4 UTF-8 bytes, the character last (a cut counted
+/// from the start of the text meets it) and first (a cut counted from the end meets it), for every k in 0..=PAD_MAX.
+/// `class_file` = in the encoding of class files (the 4-byte character as a surrogate pair, and a lone surrogate too).
+pub fn pad_strings(class_file: bool) -> Vec<Vec<u8>> {
+	let mut chars: Vec<Vec<u8>> = vec![b"b".to_vec(), "é".as_bytes().to_vec(), "€".as_bytes().to_vec()];
+	if class_file {
+		chars.push(vec![0xed, 0xa0, 0xbd, 0xed, 0xb8, 0x80]);
+		chars.push(vec![0xed, 0xa0, 0x80]);
+	} else {
+		chars.push("\u{1F600}".as_bytes().to_vec());
+	}
+	let mut v = Vec::with_capacity(2 * chars.len() * (PAD_MAX + 1));
+	for c in &chars {
+		for k in 0..=PAD_MAX {
+			let mut a = vec![b'a'; k];
+			a.extend_from_slice(c);
+			v.push(a);
+			if k > 0 {
+				let mut b = c.clone();
+				b.extend(vec![b'a'; k]);
+				v.push(b);
+			}
+		}
+	}
+	v
+}
+
+/// Files with a slot `{}` (every occurrence gets the same text) in which the text of the slot is quoted by an error, or kept
+/// in the value: duplicates of every kind of entry, too many / too few fields, bad descriptors and indices, indentation
+/// jumps, bad headers; `~` stands for the extra column of the three-namespace flavour.
+pub fn templates(p: P) -> Vec<Vec<u8>> {
+	let tiny: &[&str] = &[
+		"H\nc\t{}\tB~\n",
+		"H\nc\tA\t{}~\n",
+		"H\nc\tA\tB~\n\tc\t{}\n",
+		"H\nc\tA\tB~\n\tc\t{}\n\tc\t{}\n",
+		"H\nc\tA\tB~\n\tf\tI\tx\ty~\n\t\tc\t{}\n\t\tc\t{}x\n",
+		"H\nc\tA\tB~\n\tm\t()V\tx\ty~\n\t\tc\t{}\n\t\tc\tx{}\n",
+		"H\nc\tA\tB~\n\tm\t(I)V\tx\ty~\n\t\tp\t0\t\tq~\n\t\t\tc\t{}\n\t\t\tc\t{}\n",
+		"H\nc\t{}\tB~\nc\t{}\tC~\n",
+		"H\nc\tA\tB~\n\tf\tI\t{}\ty~\n\tf\tI\t{}\tz~\n",
+		"H\nc\tA\tB~\n\tm\t()V\t{}\ty~\n\tm\t()V\t{}\tz~\n",
+		"H\nc\tA\tB~\n\tm\t(I)V\tx\ty~\n\t\tp\t0\t\t{}~\n\t\tp\t0\t\t{}~\n",
+		"H\nc\t{}\tB\tC\tD~\n",
+		"H\nc\t{}\n",
+		"H\nc\tA\tB~\n\tf\t{}\tx\ty~\n",
+		"H\nc\tA\tB~\n\tf\tL{};;\tx\ty~\n",
+		"H\nc\tA\tB~\n\tf\tL{};\tx\ty~\n",
+		"H\nc\tA\tB~\n\tm\t({}\tx\ty~\n",
+		"H\nc\tA\tB~\n\tm\t(L{};)\tx\ty~\n",
+		"H\nc\tA\tB~\n\tm\t()V\tx\ty~\n\t\tp\t{}\t\tq~\n",
+		"H\nc\tA\tB~\n\tm\t()V\tx\ty~\n\t\tp\t0\t{}\tq~\n",
+		"H\nc\tA\tB~\n\t\t\t\t\tc\t{}\n",
+		"H\n\t\t\tc\t{}\tB~\n",
+		"tiny\t2\t1\t{}\tb~\n",
+		"tiny\t2\t0\t{}\n",
+		"tiny\t2\t0\t{}\t{}~\n",
+		"tiny\t2\t0\t{}\tb\tc\td\n",
+		"{}\t2\t0\ta\tb~\n",
+		"tiny\t{}\t0\ta\tb~\n",
+		"H\nc\t{}/\tB~\n",
+		"H\nc\tA\t{};~\n",
+		"H\nc\tA\tB~\n\tf\tI\t{};\ty~\n",
+		"H\nc\tA\tB~\n\tm\t()V\t<{}>\ty~\n",
+		"H\nc\tA\tB~\n\tc\t{}\\\n",
+		"H\nc\tA\tB~\n\tc\t\\{}\\n\\\\\n",
+		"H\nc\tA\tB~\n\t{}\tI\tx\ty~\n",
+	];
+	let diff: &[&str] = &[
+		"H\nc\t{}\tA\tB\n",
+		"H\nc\tK\t{}\tB\n",
+		"H\nc\tK\tA\t{}\n",
+		"H\nc\tK\t{}\t{}\n",
+		"H\nc\t{}\tA\tB\nc\t{}\tA\tC\n",
+		"H\nc\tK\tA\tB\n\tc\t{}\tx\n\tc\ty\t{}\n",
+		"H\nc\tK\tA\tB\n\tc\t{}\\\t\\{}\n",
+		"H\nc\tK\tA\tB\n\tf\tI\t{}\ta\tb\n\tf\tI\t{}\ta\tc\n",
+		"H\nc\tK\tA\tB\n\tm\t()V\t{}\ta\tb\n\tm\t()V\t{}\ta\tc\n",
+		"H\nc\tK\tA\tB\n\tm\t(I)V\tm\ta\tb\n\t\tp\t0\t\t{}\tq\n\t\tp\t0\t\t{}\tr\n",
+		"H\nc\tK\tA\tB\n\tm\t(I)V\tm\ta\tb\n\t\tp\t0\t{}\ta\tb\n",
+		"H\nc\tK\tA\tB\n\tm\t(I)V\tm\ta\tb\n\t\tp\t{}\t\ta\tb\n",
+		"H\nc\tK\tA\tB\n\tm\t(I)V\tm\ta\tb\n\t\tp\t0\t\ta\tb\n\t\t\tc\t{}\t\n\t\t\tc\t\t{}\n",
+		"H\nc\tK\tA\tB\n\tf\t{}\tn\ta\tb\n",
+		"H\nc\tK\tA\tB\n\tf\tI\t{}\ta\tb\tc\n",
+		"H\nc\tK\tA\tB\n\tm\t({}\tn\ta\tb\n",
+		"H\nc\tK\tA\tB\n\tm\t()V\t<{}>\ta\tb\n",
+		"H\nc\tK\tA\tB\t{}\n",
+		"H\nc\t{}\n",
+		"H\nc\tK\tA\tB\n\t\t\t\tc\t{}\tb\n",
+		"tiny\t2\t0\t{}\n",
+		"tiny\t2\t{}\n",
+		"{}\t2\t0\n",
+		"H\nc\t{}/\tA\tB\n",
+		"H\nc\tK\tA\tB\n\t{}\tI\tx\ty\tz\n",
+	];
+	let enigma: &[&str] = &[
+		"CLASS {} B\n",
+		"CLASS A {}\n",
+		"CLASS A B ACC:{}\n",
+		"CLASS A ACC:{}\n",
+		"CLASS A B C {}\n",
+		"CLASS {} B\nCLASS {} C\n",
+		"CLASS A B\n\tFIELD {} y I\n\tFIELD {} z I\n",
+		"CLASS A B\n\tMETHOD {} y ()V\n\tMETHOD {} z ()V\n",
+		"CLASS A B\n\tMETHOD m n (I)V\n\t\tARG 0 {}\n\t\tARG 0 {}\n",
+		"CLASS A B\n\tMETHOD m n (I)V\n\t\tARG {} q\n",
+		"CLASS A B\n\tMETHOD m n (I)V\n\t\tARG 0 q {}\n",
+		"CLASS A B\n\tFIELD x {}\n",
+		"CLASS A B\n\tFIELD x y L{};\n",
+		"CLASS A B\n\tMETHOD m ({}\n",
+		"CLASS A B\n\tMETHOD m n (L{};)V ACC:{}\n",
+		"CLASS A B\n\tFIELD a b c d {}\n",
+		"CLASS A B\n\tFIELD {}\n",
+		"{} x\n",
+		"CLASS A B\n\t{} x\n",
+		"CLASS A B\n\tFIELD x y I\n\t\t{} x\n",
+		"CLASS A B\n\tMETHOD m n (I)V\n\t\t{} x\n",
+		"CLASS A B\n\tMETHOD m n (I)V\n\t\tARG 0 q\n\t\t\t{} x\n",
+		"CLASS A B\n\t\t\t\tCOMMENT {}\n",
+		"CLASS A B\n\tCOMMENT {}\n\tCOMMENT {} # {}\n",
+		"CLASS A B # {}\n",
+		"CLASS A B\n\tFIELD x y I #{}\n",
+		"CLASS A B\n\tCLASS {} D\n\tCLASS {} E\n",
+		"CLASS A B\n\tCLASS {}/x D\n",
+		"CLASS A {}\n\tCLASS C {}\n\t\tCLASS E {}\n",
+	];
+	let nests: &[&str] = &[
+		"{}\ta/B\t\t\tC\t8\n",
+		"a/B$C\t{}\t\t\tC\t8\n",
+		"a/B$C\ta/B\t{}\t()V\tC\t8\n",
+		"a/B$C\ta/B\t<{}>\t()V\tC\t8\n",
+		"a/B$C\ta/B\tm\t{}\tC\t8\n",
+		"a/B$C\ta/B\tm\t({}\tC\t8\n",
+		"a/B$C\ta/B\tm\t(L{};)V\tC\t8\n",
+		"a/B$C\ta/B\t\t\t{}\t8\n",
+		"a/B$C\ta/B\t\t\t1{}\t8\n",
+		"a/B$C\ta/B\t\t\tC\t{}\n",
+		"a/B$C\ta/B\t\t\tC\t0x{}\n",
+		"a/B$C\ta/B\t\t\tC\t0b{}\n",
+		"a/B$C\ta/B\t\t\tC\t8{}\n",
+		"a/B$C\ta/B\t\t\tC\t8\t{}\n",
+		"{}\n",
+		"a/B$C\t{}\n",
+		"{}/\ta/B\t\t\tC\t8\n",
+		"{}\ta/B\t\t\tC\t8\n{}\ta/B\t\t\tD\t9\n",
+		"a/B$C\ta/B\t\t\tC\t8\n{}\n",
+	];
+	let desc_field: &[&str] = &["{}", "L{};", "L{}", "[{}", "[[L{};", "I{}", "L{};{}", "L{}/;"];
+	let desc_method: &[&str] = &["{}", "({}", "({})V", "(L{};)V", "(L{};", "(){}", "()L{};", "()L{}", "(I{})V", "()V{}", "([[L{};J)[L{};"];
+	let (list, header): (&[&str], &str) = match p {
+		P::Tiny2 => (tiny, "tiny\t2\t0\ta\tb"),
+		P::Tiny3 => (tiny, "tiny\t2\t0\ta\tb\tc"),
+		P::TinyDiff => (diff, "tiny\t2\t0"),
+		P::Enigma => (enigma, ""),
+		P::Nests => (nests, ""),
+		P::DescField => (desc_field, ""),
+		P::DescMethod => (desc_method, ""),
+		P::DescReturn => (desc_field, ""),
+		P::Class => (&[], ""),
+	};
+	let third = if p == P::Tiny3 { "\tzz" } else { "" };
+	list.iter().map(|t| {
+		let t = if header.is_empty() { (*t).to_owned() } else { t.replacen('H', header, 1) };
+		t.replace('~', third).into_bytes()
+	}).collect()
+}
+
+/// `template` with every `{}` replaced by `text`
+pub fn fill(template: &[u8], text: &[u8]) -> Vec<u8> {
+	let mut out = Vec::with_capacity(template.len() + 3 * text.len());
+	let mut i = 0;
+	while i < template.len() {
+		if template[i] == b'{' && template.get(i + 1) == Some(&b'}') {
+			out.extend_from_slice(text);
+			i += 2;
+		} else {
+			out.push(template[i]);
+			i += 1;
+		}
+	}
+	out
+}
